@@ -31,6 +31,8 @@ type cfgCase struct {
 	Dangling [][]int `json:"dangling"`
 	// one-config lists whose ECHConfigContents are cut to their first 0..n-1 bytes, the enclosing lengths consistent
 	Cuts [][]int `json:"cuts"`
+	// the same with one unknown extension in the contents; the last element is the complete config
+	XCuts [][]int `json:"xcuts"`
 }
 
 func ib(x []int) []byte {
@@ -94,6 +96,15 @@ func checkCfgCase(c *cfgCase) (diff string) {
 	for k, d := range c.Cuts {
 		if got, err := ech.ParseConfigList(ib(d)); err == nil {
 			return fmt.Sprintf("contents truncated to %d of %d bytes (lengths consistent) are accepted: %+v", k, len(c.Cuts), got)
+		}
+	}
+	for k, d := range c.XCuts {
+		got, err := ech.ParseConfigList(ib(d))
+		if k < len(c.XCuts)-1 && err == nil {
+			return fmt.Sprintf("contents with an extension, truncated to %d of %d bytes (lengths consistent), are accepted: %+v", k, len(c.XCuts)-1, got)
+		}
+		if k == len(c.XCuts)-1 && (err != nil || len(got) != 1 || !sameSpec(got[0], want[0])) {
+			return fmt.Sprintf("a config carrying an unknown extension is not parsed back to the same fields: %+v err=%v", got, err)
 		}
 	}
 	for k, d := range c.Dangling {
